@@ -28,7 +28,7 @@ func init() {
 		if tier == "thorough" {
 			n = 900
 		}
-		return Plan{Runs: n, Race: true, Level: "exploration", Rule: "one run = five concurrent phases (cold-start handshakes; handshakes vs tick vs UpdateCRL vs forced background refresh; handshakes after a refresh that failed signature verification; OCSP lookups around cache expiry; handshakes vs Cleanup) with 2-6 client tasks over 1-2 validators, backend, fetch mode and preemption density drawn per run, executed under the race detector; non-trivial = at least 10 task switches happened inside a phase; distinct = distinct schedule fingerprints"}
+		return Plan{Runs: n, Race: true, Level: "exploration", Rule: "one run = six concurrent phases (cold-start handshakes; first use of a new multi-URL location while a refresh tick runs; handshakes vs tick vs UpdateCRL vs forced background refresh; handshakes after a refresh that failed signature verification; OCSP lookups around cache expiry; handshakes vs Cleanup) with 2-6 client tasks over 1-2 validators, backend, fetch mode and preemption density drawn per run, executed under the race detector; non-trivial = at least 10 task switches happened inside a phase; distinct = distinct schedule fingerprints"}
 	}, Run: runC13})
 }
 
@@ -131,6 +131,38 @@ func runC13(h *Harness) {
 			h.Violation("C13.verdict", "cold-start:lenient-deny", "phase 1 (background fetch, lenient): unlisted %s returned %s", c.class, v)
 		case !strict && listed && v != "revoked" && v != "accept":
 			h.Violation("C13.verdict", "cold-start:lenient-error", "phase 1 (background fetch, lenient): listed %s returned %s", c.class, v)
+		}
+	}
+	// ---------------------------------------------------------------- phase 1b: first use of a new location while a tick is due
+	{
+		l4 := w.NewLocation(LocOpts{Name: "L4", URL: "http://crl4.sim/d.crl", Issuer: w.A, NVers: 1, Extra: 2, Width: 11, Base: 3})
+		cdp4 := []string{"http://dead4.sim/x.crl", l4.URL} // several URLs: the loader remembers which one worked
+		h.S.Run(func(v schedView) bool {
+			for _, t := range v.parked {
+				if t.kind == kStart && !t.client {
+					return true
+				}
+			}
+			return false
+		}, h.S.Now()+11*time.Minute)
+		cs = nil
+		n0 := nodes[0]
+		for i := 0; i < 2+nclients/2; i++ {
+			s, cl := mkcert(l4, Pick(tp, "common", "never"))
+			cert := l4.Issuer.Issue(EEOpts{Serial: s, CDP: cdp4})
+			c := &call{loc: l4, serial: s, class: cl, node: n0}
+			c.hs = h.StartHandshake(n0, "L4/"+cl, w.ChainFor(cert, l4.Issuer))
+			cs = append(cs, c)
+		}
+		waitAll(cs)
+		h.Settle(30 * time.Second)
+		for _, c := range cs {
+			h.R.Checks++
+			listed := c.loc.Lists(0, c.serial)
+			v := errStr(c.hs.Err)
+			if strict && ((listed && v != "revoked") || (!listed && v != "accept")) {
+				h.Violation("C13.verdict", "first-use-during-tick", "phase 1b: %s on a location first used while a refresh tick ran returned %s", c.class, v)
+			}
 		}
 	}
 	// ---------------------------------------------------------------- phase 2: refresh storm
